@@ -887,6 +887,12 @@ func formatExpr(e Expression, opts FormatOptions) string {
 	return exprSQL(e)
 }
 
+// formatOperand formats an operand and parenthesizes it when its own operator
+// binds less tightly than min (see exprPrecedence).
+func formatOperand(e Expression, min int, opts FormatOptions) string {
+	return parenthesizeOperand(e, formatExpr(e, opts), min)
+}
+
 // formatStmt formats a statement using Format if available, otherwise SQL().
 func formatStmt(s Statement, opts FormatOptions) string {
 	if s == nil {
@@ -1043,7 +1049,7 @@ func (b *BetweenExpression) Format(opts FormatOptions) string {
 	f := newFormatter(opts)
 	sb := f.sb
 
-	sb.WriteString(formatExpr(b.Expr, opts))
+	sb.WriteString(formatOperand(b.Expr, precConcat, opts))
 	sb.WriteString(" ")
 	if b.Not {
 		sb.WriteString(f.kw("NOT"))
@@ -1051,11 +1057,11 @@ func (b *BetweenExpression) Format(opts FormatOptions) string {
 	}
 	sb.WriteString(f.kw("BETWEEN"))
 	sb.WriteString(" ")
-	sb.WriteString(formatExpr(b.Lower, opts))
+	sb.WriteString(formatOperand(b.Lower, precConcat, opts))
 	sb.WriteString(" ")
 	sb.WriteString(f.kw("AND"))
 	sb.WriteString(" ")
-	sb.WriteString(formatExpr(b.Upper, opts))
+	sb.WriteString(formatOperand(b.Upper, precConcat, opts))
 
 	return f.result()
 }
@@ -1068,7 +1074,7 @@ func (i *InExpression) Format(opts FormatOptions) string {
 	f := newFormatter(opts)
 	sb := f.sb
 
-	sb.WriteString(formatExpr(i.Expr, opts))
+	sb.WriteString(formatOperand(i.Expr, precConcat, opts))
 	sb.WriteString(" ")
 	if i.Not {
 		sb.WriteString(f.kw("NOT"))
